@@ -9,7 +9,7 @@ EXPLANATION = ("Static rules over the drop-elaborated MIR of may/may_queue: (R-O
                "registers-then-rechecks and returns only after observing state==false; (R-WHO) the per-worker run queues are "
                "touched only with the caller's own worker id; (R-MO) Join.state Release/Acquire. Decides these necessary "
                "conditions, not the behaviour over all schedules.")
-EXPLANATION_2 = ('scheduler: a worker leaves run_queued_tasks only behind `has_tasks() == false` after collect_global, collect_global returns only on an empty batch; Join state encoding (starts true, trigger stores false), park only behind the re-check after registering; the waiter taken out of Join.to_wake is unparked; mpsc block-boundary / packed tail-word / fast-bulk value rules of the global run queue')
+EXPLANATION_2 = ('scheduler: a worker leaves run_queued_tasks only behind `has_tasks() == false` after collect_global, collect_global returns only on an empty batch; Join state encoding (starts true, trigger stores false), park only behind the re-check after registering; the waiter taken out of Join.to_wake is unparked; mpsc block-boundary / packed tail-word / fast-bulk value rules of the global run queue; a worker returns to its selector after a bounded number of runs and posts its wakeup event (F32)')
 NOT_DECIDED = "that the queues deliver every pushed coroutine (C03/C04), liveness, the generator crate's context switch"
 CONFIGS_QUICK = ["default"]
 NEEDS_TARGET = True
